@@ -5,34 +5,6 @@ use crate::c19::*;
 
 /// Test generated for harness `c19::c19_range_i32_backward` 
 ///
-/// Check for `cover`: "end less than one step behind start"
-///
-/// # Warning
-///
-/// Concrete playback tests combined with stubs or contracts is highly
-/// experimental, and subject to change.
-///
-/// The original harness has stubs which are not applied to this test.
-/// This may cause a mismatch of non-deterministic values if the stub
-/// creates any non-deterministic value.
-/// The execution path may also differ, which can be used to refine the stub
-/// logic.
-
-#[test]
-fn kani_concrete_playback_c19_range_i32_backward_14032118924222124931() {
-    let concrete_vals: Vec<Vec<u8>> = vec![
-        // 17
-        vec![17, 0, 0, 0],
-        // 8
-        vec![8, 0, 0, 0],
-        // 15
-        vec![15, 0, 0, 0],
-    ];
-    kani::concrete_playback_run(concrete_vals, c19_range_i32_backward);
-}
-
-/// Test generated for harness `c19::c19_range_i32_backward` 
-///
 /// Check for `assertion`: "This is a placeholder message; Kani doesn't support message formatted at runtime"
 ///
 /// # Warning
@@ -55,6 +27,34 @@ fn kani_concrete_playback_c19_range_i32_backward_13206718619252817550() {
         vec![17, 0, 0, 0],
         // 2
         vec![2, 0, 0, 0],
+    ];
+    kani::concrete_playback_run(concrete_vals, c19_range_i32_backward);
+}
+
+/// Test generated for harness `c19::c19_range_i32_backward` 
+///
+/// Check for `cover`: "end less than one step behind start"
+///
+/// # Warning
+///
+/// Concrete playback tests combined with stubs or contracts is highly
+/// experimental, and subject to change.
+///
+/// The original harness has stubs which are not applied to this test.
+/// This may cause a mismatch of non-deterministic values if the stub
+/// creates any non-deterministic value.
+/// The execution path may also differ, which can be used to refine the stub
+/// logic.
+
+#[test]
+fn kani_concrete_playback_c19_range_i32_backward_14032118924222124931() {
+    let concrete_vals: Vec<Vec<u8>> = vec![
+        // 17
+        vec![17, 0, 0, 0],
+        // 8
+        vec![8, 0, 0, 0],
+        // 15
+        vec![15, 0, 0, 0],
     ];
     kani::concrete_playback_run(concrete_vals, c19_range_i32_backward);
 }
